@@ -552,6 +552,11 @@ func (c *rigChild) sidString(alias, how string) string {
 		return fmt.Sprintf("0x%x", robust.MessageOffset+1)
 	case how == "notyet":
 		return fmt.Sprintf("0x%x", robust.MessageOffset+1000000)
+	case how == "next":
+		// session ids are predictable: the id of a session is the raft index
+		// of its CreateSession entry, i.e. (if nothing else is proposed in
+		// between) the node's last index + 1.
+		return fmt.Sprintf("0x%x", robust.IdFromRaftIndex(node.LastIndex()+1))
 	case how == "zero":
 		return "0"
 	case strings.HasPrefix(how, "raw:"):
@@ -658,7 +663,7 @@ func (c *rigChild) expandPath(p string) string {
 			rep = c.sidString(tok[4:], "hex")
 		case strings.HasPrefix(tok, "sid10:"):
 			rep = c.sidString(tok[6:], "dec")
-		case tok == "never" || tok == "notyet":
+		case tok == "never" || tok == "notyet" || tok == "next":
 			rep = c.sidString("", tok)
 		default:
 			panic("unknown path token {" + tok + "}")
@@ -820,12 +825,17 @@ func (g *rigBgGet) wait(ms, until int, r *rigResult) {
 		}
 		time.Sleep(2 * time.Millisecond)
 	}
+	pending := false
 	select {
 	case <-g.head:
-	case <-time.After(5 * time.Second):
+	case <-time.After(1 * time.Second):
+		pending = true // no response header yet: the request is still in flight
 	}
 	g.mu.Lock()
 	defer g.mu.Unlock()
+	if pending {
+		r.Extra = map[string]interface{}{"pending": true}
+	}
 	r.Status = g.status
 	r.Hdr = g.hdr
 	r.Body = g.body
@@ -989,6 +999,27 @@ func (c *rigChild) step(st rigStep, r *rigResult) {
 			basicDefault = "correct"
 		}
 		path := c.expandPath(st.Path)
+		if st.Bg != "" {
+			// request kept in flight: returns once the response header arrived or
+			// after `ms` (default 100); read the rest with `collect`
+			g := c.startGetGeneric(st, method, path, body, basicDefault)
+			c.bg[st.Bg] = g
+			ms := st.Ms
+			if ms <= 0 {
+				ms = 100
+			}
+			headSeen := false
+			select {
+			case <-g.head:
+				headSeen = true
+			case <-time.After(time.Duration(ms) * time.Millisecond):
+			}
+			g.mu.Lock()
+			r.Status, r.Hdr, r.Err = g.status, g.hdr, g.err
+			g.mu.Unlock()
+			r.Extra = map[string]interface{}{"path": path, "headSeen": headSeen}
+			return
+		}
 		if st.Ms > 0 {
 			// streaming read (e.g. a GET that might turn out to be a long poll)
 			st2 := st
